@@ -269,6 +269,7 @@ impl GameState {
     /// Takes an action and returns a new game state.
     #[must_use = "This function does not modify the given state. You must use the resultant state."]
     pub fn take_action(&self, action: &Action) -> Self {
+        verif_point!("take_action");
         match action {
             Action::Pass => self.pass(),
             Action::Place(piece) => self.place(*piece),
@@ -316,6 +317,7 @@ impl GameState {
         clippy::needless_bool
     )]
     pub fn has_move(&self, piece_board: &PieceBoardState) -> Option<Terminal> {
+        verif_point!("has_move");
         let has_move = if let Phase::PlayPhase(play_phase) = &self.phase {
             if play_phase.push_pull_state.is_must_complete_push() {
                 let valid_actions = self.must_complete_push_actions(piece_board);
@@ -459,6 +461,7 @@ impl GameState {
     }
 
     fn valid_actions_(&self, check_repititions: bool) -> Vec<Action> {
+        verif_point!("valid_actions");
         if let Phase::PlayPhase(play_phase) = &self.phase {
             let piece_board = self.piece_board();
             let mut valid_actions = if play_phase.push_pull_state.is_must_complete_push() {
@@ -477,6 +480,7 @@ impl GameState {
             };
 
             if check_repititions {
+                verif_point!("valid_actions.filter");
                 self.remove_passing_like_actions(&mut valid_actions);
             }
 
@@ -612,6 +616,7 @@ impl GameState {
     }
 
     fn place(&self, piece: Piece) -> Self {
+        verif_point!("place");
         let piece_board = &self.piece_board();
         let placement_bit = piece_board.placement_bit();
 
@@ -684,6 +689,7 @@ impl GameState {
 
     fn pass(&self) -> Self {
         let hash = self.hash.pass(self.current_step());
+        verif_point!("pass.hashed");
         let play_phase = self.unwrap_play_phase();
         let new_hash_history = if play_phase.piece_trapped_this_turn {
             List::new()
@@ -708,6 +714,7 @@ impl GameState {
         let new_action = Action::Move(*square, *direction);
         let (new_piece_board_state, new_animal_was_trapped) =
             self.piece_board.take_action(&new_action);
+        verif_point!("move_piece.board_updated");
         let new_p1_turn_to_move = if is_last_step {
             !self.p1_turn_to_move
         } else {
@@ -723,6 +730,7 @@ impl GameState {
         let new_hash =
             self.hash
                 .move_piece(self, &new_piece_board_state, new_step, new_p1_turn_to_move);
+        verif_point!("move_piece.hashed");
         let new_hash_history = if new_animal_was_trapped {
             List::new()
         } else {
@@ -978,6 +986,7 @@ impl GameState {
     }
 
     fn is_passing_like_action(&self, action: &Action) -> bool {
+        verif_point!("is_passing_like_action");
         let play_phase = self.unwrap_play_phase();
         let initial_hash_of_move = play_phase.initial_hash_of_move;
         let hash_history = &play_phase.hash_history;
